@@ -83,12 +83,17 @@ impl CollisionTask<'_> {
             // if similarly simplified            
             let am_aaabb = sm_shape.local_aabb().loosened(r_min);
             let sm_abb_mesh = build_trimesh_from_aabb(am_aaabb);
+            // The intersection test works on surfaces: it does not see the other object if it
+            // lies completely inside the enlarged box, so this case is checked separately.
+            let bg_to_sm = sm_transform.inverse() * bg_transform;
+            let inside_enlarged_box = || bg_shape.vertices().iter()
+                .any(|v| am_aaabb.contains_local_point(&(bg_to_sm * v)));
             if !parry3d::query::intersection_test(
                 sm_transform,
                 &sm_abb_mesh,
                 bg_transform,
                 bg_shape,
-            ).expect(SUPPORTED) {
+            ).expect(SUPPORTED) && !inside_enlarged_box() {
                 false
             } else {
                 parry3d::query::distance(
